@@ -324,4 +324,119 @@ Proof.
       destruct (Z.eqb_spec f' t) as [->|]; [|destruct E]. destruct E as [E|[]]. injection E as <- <- <-.
       rewrite Z.eqb_refl. rewrite (Htn ltac:(lia)) in *. apply (j_shadow _ _ HJ t s' t' stt Hin Ht2 Hk).
 Qed.
+
+(* ---------- the two folds of add_finals ---------- *)
+Hypothesis H0_uniq : forall f s t, In (f, s, t) (a_trans a0) -> trans_target a0 f s = Some t /\ 0 <= f < n0 /\ 0 <= t < n0.
+Hypothesis H0_reach : forall q st, st_at a0 q st -> exists i gamma, vin i /\ reach a0 i gamma q.
+
+Lemma J_init : J a0 (fun q => q).
+Proof.
+  constructor.
+  - exists []. rewrite app_nil_r. reflexivity.
+  - auto.
+  - intros q st Hst. right. split; [eapply H0_kind; apply Hst|]. split; auto.
+    intros Hq. pose proof (len_pos a0 q st Hst) as H. unfold n0 in Hq. lia.
+  - intros f s t Hin. destruct (H0_uniq f s t Hin) as (_ & H1 & H2). auto.
+  - intros f s t stf stt Htt [_ Hf] [_ Ht]. right. split; [eapply H0_kind; eauto|]. split; [eapply H0_kind; eauto|auto].
+  - intros f stf s t0 _ _ E. exists t0. auto.
+  - intros q st Hst _. apply (H0_reach q st Hst).
+  - intros f s t stt Hin _ _. apply (H0_uniq f s t Hin).
+Qed.
+
+Definition fin1 (acc : automaton * list Z) (x : Z * (Z * bool)) : automaton * list Z :=
+  let '(a, lasts) := acc in let '(i, inp) := x in
+  match trans_target a i (fst inp) with
+  | Some t =>
+      if existsb (fun '(f, _, t') => (t' =? t) && negb (f =? i)) (a_trans a) then
+        let c := Z.of_nat (length (a_states a)) in
+        let st := nth (Z.to_nat t) (a_states a) (mkState [] None 0) in
+        let redirected := map (fun '(f, s, t') => if (f =? i) && (t' =? t) then (f, s, c) else (f, s, t')) (a_trans a) in
+        let copied := flat_map (fun '(f, s, t') => if f =? t then [(c, s, t')] else []) (a_trans a) in
+        (mkAut (a_states a ++ [st]) (redirected ++ copied), lasts ++ [c])
+      else (a, lasts ++ [t])
+  | None => let t := Z.of_nat (length (a_states a)) in
+            (mkAut (a_states a ++ [mkState [] (Some (-1 - i)) 1]) (a_trans a ++ [(i, fst inp, t)]), lasts ++ [t])
+  end.
+
+Definition fin2 (lasts : list Z) (acc : automaton * list Z) (x : Z * (Z * bool)) : automaton * list Z :=
+  let '(a, finals) := acc in let '(i, inp) := x in
+  let lst := nth (Z.to_nat i) lasts 0 in
+  if snd inp then
+    let t := Z.of_nat (length (a_states a)) in
+    (mkAut (a_states a ++ [mkState [] (Some (-1 - i)) 2]) (a_trans a ++ [(lst, 0, t)]), finals ++ [t])
+  else (a, finals ++ [lst]).
+
+Definition inputs_ix : list (Z * (Z * bool)) := combine (zrange (Z.of_nat (length (g_inputs g)))) (g_inputs g).
+
+Lemma add_finals_eq a :
+  add_finals g a = let '(a1, lasts) := fold_left fin1 inputs_ix (a, []) in fold_left (fin2 lasts) inputs_ix (a1, []).
+Proof. reflexivity. Qed.
+
+Lemma inputs_ix_vin i inp : In (i, inp) inputs_ix -> vin i.
+Proof. intros H. apply in_combine_zrange in H. destruct H as [H1 H2]. split; eauto. Qed.
+
+Definition lasts_ok (a : automaton) (lasts : list Z) : Prop :=
+  Forall (fun l => 0 <= l < Z.of_nat (length (a_states a))) lasts.
+
+Lemma lasts_ok_grow a a' lasts l :
+  (length (a_states a) <= length (a_states a'))%nat -> lasts_ok a lasts -> 0 <= l < Z.of_nat (length (a_states a')) ->
+  lasts_ok a' (lasts ++ [l]).
+Proof.
+  intros Hle Hok Hl. apply Forall_app. split; [|constructor; auto].
+  eapply Forall_impl; [|exact Hok]. intros x Hx. simpl in Hx. lia.
+Qed.
+
+Lemma syn_state_synP i k : 0 <= i -> k <> 0 -> synP (mkState [] (Some (-1 - i)) k).
+Proof. intros Hi Hk. split; [reflexivity|]. split; [exact Hk|]. exists i. auto. Qed.
+
+Lemma fin1_inv acc x : In x inputs_ix ->
+  (exists h, J (fst acc) h) /\ lasts_ok (fst acc) (snd acc) ->
+  (exists h, J (fst (fin1 acc x)) h) /\ lasts_ok (fst (fin1 acc x)) (snd (fin1 acc x)).
+Proof.
+  destruct acc as [a lasts], x as [i inp]. intros Hin [[h HJ] Hok]. cbn [fst snd] in *.
+  pose proof (inputs_ix_vin i inp Hin) as Hvin. pose proof (vin_lt i Hvin) as Hi. pose proof (J_len a h HJ) as Hlen.
+  unfold fin1. destruct (trans_target a i (fst inp)) as [t|] eqn:Ett.
+  - destruct (tt_targets a h _ _ _ HJ Ett) as [_ Ht].
+    destruct (existsb _ (a_trans a)) eqn:Eex.
+    + cbv zeta. cbn [fst snd]. split.
+      * eexists. apply (J_copy a h i t (fst inp)); auto.
+        -- split; [lia|]. apply nth_error_nth'. lia.
+        -- apply existsb_exists in Eex. destruct Eex as ([[f s'] t'] & Hin' & E).
+           apply andb_true_iff in E. destruct E as [E1 E2]. apply Z.eqb_eq in E1. subst t'.
+           apply negb_true_iff, Z.eqb_neq in E2. eauto.
+      * apply (lasts_ok_grow a); auto; cbn [a_states]; rewrite app_length; simpl; lia.
+    + cbn [fst snd]. split; eauto. apply (lasts_ok_grow a); auto.
+  - cbv zeta. cbn [fst snd]. split.
+    + exists h. apply J_add_syn; auto; [apply syn_state_synP; lia|lia].
+    + apply (lasts_ok_grow a); auto; cbn [a_states]; rewrite app_length; simpl; lia.
+Qed.
+
+Lemma fin2_inv lasts n1 acc x : In x inputs_ix -> Forall (fun l => 0 <= l < n1) lasts ->
+  (exists h, J (fst acc) h) /\ n1 <= Z.of_nat (length (a_states (fst acc))) ->
+  (exists h, J (fst (fin2 lasts acc x)) h) /\ n1 <= Z.of_nat (length (a_states (fst (fin2 lasts acc x)))).
+Proof.
+  destruct acc as [a finals], x as [i inp]. intros Hin Hok [[h HJ] Hn1]. cbn [fst snd] in *.
+  pose proof (inputs_ix_vin i inp Hin) as Hvin. pose proof (vin_lt i Hvin) as Hi. pose proof (J_len a h HJ) as Hlen.
+  unfold fin2. cbv zeta. destruct (snd inp); cbn [fst snd]; [|eauto]. split.
+  - exists h. apply J_add_syn; auto; [apply syn_state_synP; lia|].
+    destruct (nth_in_or_default (Z.to_nat i) lasts 0) as [H|H].
+    + rewrite Forall_forall in Hok. apply Hok in H. lia.
+    + rewrite H. lia.
+  - cbn [a_states]. rewrite app_length. lia.
+Qed.
+
+Theorem add_finals_J : exists h, J (fst (add_finals g a0)) h.
+Proof.
+  rewrite add_finals_eq.
+  pose proof (fold_left_inv (fun acc => (exists h, J (fst acc) h) /\ lasts_ok (fst acc) (snd acc)) fin1 inputs_ix (a0, [])) as H1.
+  destruct (fold_left fin1 inputs_ix (a0, [])) as [a1 lasts]. cbn [fst snd] in H1.
+  destruct H1 as [HJ1 Hok1].
+  - split; [exists (fun q => q); apply J_init|constructor].
+  - intros acc x Hin Hacc. apply fin1_inv; auto.
+  - pose proof (fold_left_inv (fun acc => (exists h, J (fst acc) h) /\
+        Z.of_nat (length (a_states a1)) <= Z.of_nat (length (a_states (fst acc)))) (fin2 lasts) inputs_ix (a1, [])) as H2.
+    apply H2.
+    + cbn [fst]. split; [exact HJ1|lia].
+    + intros acc x Hin Hacc. apply (fin2_inv lasts (Z.of_nat (length (a_states a1)))); auto.
+Qed.
 End Finals.
